@@ -281,6 +281,15 @@ def catalogue():
     def _(wn):
         cond = C.OrCondition(C.ValueCondition(wn.get_node("J3"), "pressure", ">", 40.0), C.ValueCondition(wn.get_node("T1"), "level", ">=", 5.5))
         wn.add_control("rule1", C.Rule(cond, [act(wn, "p3", "status", LS.Closed), act(wn, "p4", "status", LS.Closed)], priority=4))
+    @dev("r_two_else_actions", "rule1")
+    def _(wn):
+        cond = C.ValueCondition(wn.get_node("T1"), "level", ">", 4.5)
+        wn.add_control("rule1", C.Rule(cond, [act(wn, "p3", "status", LS.Closed)], [act(wn, "p3", "status", LS.Open), act(wn, "p4", "status", LS.Closed), act(wn, "p2", "status", LS.Open)], priority=2))
+    @dev("r_three_then_two_else", "rule1")
+    def _(wn):
+        cond = C.OrCondition(C.SimTimeCondition(wn, ">=", 3 * 3600), C.ValueCondition(wn.get_node("J3"), "pressure", "<", 12.0))
+        wn.add_control("rule1", C.Rule(cond, [act(wn, "p3", "status", LS.Closed), act(wn, "p4", "status", LS.Open), act(wn, "p2", "status", LS.Closed)],
+                                      [act(wn, "p2", "status", LS.Open), act(wn, "p3", "status", LS.Open)]))
     @dev("r_clock_noprio", "rule1")
     def _(wn):
         cond = C.TimeOfDayCondition(wn, ">=", 20 * 3600)
